@@ -177,7 +177,7 @@ def body_topology(env):
 
 def instances(tier):
     inst = []
-    lay_q = ['one-a2', 'two-a2-a3', 'three-a2-a3-ur', 'three-a3-dd-u6', 'ring-no-centre', 'three-a3-b3-a2']
+    lay_q = ['one-a2', 'two-a2-a3', 'three-a2-a3-ur', 'three-a3-dd-u6', 'ring-no-centre', 'three-a3-b3-a2', 'three-ur-u6-a2']
     lay_t = lay_q + ['seven-mixed', 'seven-a2', 'six-hole']
     for l in (lay_q if tier == 'quick' else lay_t):
         inst.append(dict(label='geometry[%s]' % l, body=body_geometry, params={'layout': l}, max_paths=64, max_depth=400, timeout_ms=120000))
@@ -187,7 +187,7 @@ def instances(tier):
     # and a mix of three mesh kinds (thorough)
     masks = list(range(1, 128))
     for m in masks:
-        for types in ((('a2',),) if tier == 'quick' else (('a2',), ('a3', 'a2', 'ur'))):
+        for types in ((('a2',), ('ur',)) if tier == 'quick' else (('a2',), ('ur',), ('a3', 'a2', 'ur'), ('ur', 'u6', 'a3'))):
             inst.append(dict(label='topology-subset[positions=%s,types=%s]' % (format(m, '07b')[::-1], '/'.join(types)), body=body_topology,
                              params={'layout': m, 'types': types}, check_vacuity=False))
     return inst
